@@ -6,8 +6,8 @@ import (
 	"reflect"
 	"testing"
 
-	"verif/internal/eqv"
 	"verif/internal/corpus"
+	"verif/internal/eqv"
 	"verif/internal/h"
 	"verif/internal/iox"
 )
